@@ -160,6 +160,17 @@ class Sched:
                 best = deadline
         return best
 
+    def due_count(self, t):
+        """Number of threads whose timed wait expires at or before t."""
+        n = 0
+        for vt in self.threads:
+            if vt.done or vt.waiting is None:
+                continue
+            pred, deadline = vt.waiting
+            if deadline is not None and deadline <= t and not pred():
+                n += 1
+        return n
+
     def blocked(self):
         return [vt for vt in self.threads if not vt.done and vt.waiting is not None
                 and not self._is_enabled(vt)]
